@@ -20,7 +20,7 @@ SPEC = dict(
                  "file text contains no ESC character: click.echo strips ANSI escape sequences from non-tty output, so "
                  "such a line cannot be shown verbatim by any diff printed through click"],
     required=["dry_ok_and_applied", "multi_file_diffs", "engine:v1", "engine:v2", "dry_failed_nothing_changed",
-              "commit_on_runs"],
+              "commit_on_runs", "unaffected_file_cases", "fault_cases"],
     anchors=[("cli", "_print_diff"), ("v2rewrite", "diff"), ("v1rewrite", "diff"), ("rewrite", "diff_lines"),
              ("v2rewrite", "rewrite_files")],
 )
@@ -109,13 +109,85 @@ def cases(ctx):
     n = ctx.size(1600, 40000)
     for i in range(n):
         yield {"pseed": ctx.rng.getrandbits(48), "legacy": i % 5 == 4, "commit": i % 4 == 0, "unicode": i % 3 == 0,
-               "random_flags": i % 6 == 5}
+               "random_flags": i % 6 == 5, "fault": i % 7 == 3}
+    # files whose patterns do not depend on the part that changes (a `series MAJOR.x` line during a --patch bump),
+    # intact and with the occurrence destroyed: dry and real run must agree there too
+    k = 0
+    for vp, cur, flag in (("MAJOR.MINOR.PATCH", "1.2.3", "--patch"), ("vMAJOR.MINOR.PATCH[-TAG]", "v2.0.9-beta", "--patch"),
+                          ("MAJOR.MINOR.PATCH", "0.9.9", "--minor"), ("YYYY.MM.PATCH", "2021.5.1", "--patch")):
+        for partial, ok_text in (("series MAJOR.x", None), ("copyright YYYY", None), ("compat >=MAJOR.MINOR", None)):
+            for destroyed in (False, True):
+                for commit in (False, True):
+                    if ctx.mine(k):
+                        yield {"kind": "unaffected", "vp": vp, "cur": cur, "flag": flag, "partial": partial,
+                               "destroyed": destroyed, "commit": commit}
+                    k += 1
 
 
 EOL_OF = {"LF": "\n", "CRLF": "\r\n", "CR": "\r"}
 
 
+def run_unaffected(ctx, case):
+    from bvmon import ref
+    tdy = updates.today()
+    vp, cur = case["vp"], case["cur"]
+    ast = ref.parse_pattern(vp)
+    st = ref.state_from_raw(ref.parse(ast, cur), tdy)
+    past = ref.parse_pattern(case["partial"])
+    if any(st.get(ref.FIELD[n]) is None for n in ref.parts_in(past)):
+        raise harness.Skip("partial-not-determined")
+    occ = ref.render(past, st)
+    line = ("~" * len(occ)) if case["destroyed"] else occ
+    cfg = (f'[bumpver]\ncurrent_version = "{cur}"\nversion_pattern = "{vp}"\ncommit = {str(case["commit"]).lower()}\n\n'
+           f'[bumpver.file_patterns]\n"bumpver.toml" = [\'current_version = "{{version}}"\']\n'
+           f'"a.txt" = ["version {{version}}"]\n"compat.txt" = ["{case["partial"]}"]\n')
+    files = {"bumpver.toml": cfg, "a.txt": f"head\nversion {cur}\ntail\n", "compat.txt": f"notes\n{line}\nend\n"}
+    d = harness.new_project(files)
+    fake = None
+    env = None
+    try:
+        if case["commit"]:
+            fake = harness.FakeVCS(d, "git")
+            fake.set_out("status", "")
+            env = fake.env
+        date = "%04d-%02d-%02d" % (st.get("year_y") or tdy.year, st.get("month") or 6, 15)
+        args = ["update", "--no-fetch", case["flag"], "--date", date]
+        before = harness.snapshot(d)
+        dres = harness.invoke(args + ["--dry"], cwd=d, env=env)
+        if harness.snapshot(d) != before:
+            ctx.violation("other:dry_run_changed_files", f"{args} --dry", case=case)
+        if fake:
+            fake.reset()
+        res = harness.invoke(args, cwd=d, env=env)
+        after = harness.snapshot(d)
+        ctx.count("unaffected_file_cases")
+        ctx.evaluated(("unaffected", vp, case["partial"], case["destroyed"], case["commit"], dres.exit_code == 0),
+                      sample={"argv": args, "compat.txt": files["compat.txt"], "dry_exit": dres.exit_code, "real_exit": res.exit_code})
+        if dres.exit_code == 0 and res.exit_code != 0:
+            ctx.violation("other:real_run_fails_after_clean_dry_run", f"{args}: compat.txt = {files['compat.txt']!r} with "
+                          f"pattern {case['partial']!r}: --dry exits 0, the real run exits {res.exit_code}: {res.errors()[-2:]}",
+                          case=case)
+        if not case["destroyed"] and (dres.exit_code != 0 or res.exit_code != 0):
+            ctx.violation("other:update_fails_on_intact_project", f"{args}: dry {dres.exit_code}, real {res.exit_code}: "
+                          f"{(dres.errors() + res.errors())[-2:]}", case=case)
+        if dres.exit_code == 0 and res.exit_code == 0:
+            try:
+                predicted = apply_diff({k: v for k, v in files.items()}, {k: "\n" for k in files},
+                                       parse_diff(dres.stdout.rstrip("\n") if dres.stdout.strip("\n") else ""))
+                bad = [fn for fn in files if after.get(fn) != predicted[fn].encode()]
+                if bad:
+                    ctx.violation("other:real_run_differs_from_printed_diff", f"{args}: {bad}", case=case)
+            except DiffError as ex:
+                ctx.violation("other:printed_diff_not_applicable", f"{args}: {ex}", case=case)
+    finally:
+        harness.rm_dir(d)
+        if fake:
+            fake.destroy()
+
+
 def run_case(ctx, case):
+    if case.get("kind") == "unaffected":
+        return run_unaffected(ctx, case)
     R = random.Random(case["pseed"])
     mods = updates.bvmods()
     tdy = updates.today()
@@ -149,6 +221,17 @@ def run_case(ctx, case):
     if any("\x1b" in t for t in proj.files.values()):
         raise harness.Skip("ansi-escape-in-file(click strips it from non-tty output)")
     files = proj.encoded()
+    if case.get("fault"):
+        # one configured pattern is made non-matching: whatever --dry says, the real run must agree with it
+        cands = [pl for pl in proj.plants if pl.file != proj.cfg_name]
+        if cands:
+            victim = R.choice(cands)
+            t = proj.files[victim.file]
+            for pl in proj.plants:
+                if pl.file == victim.file and pl.raw == victim.raw:
+                    t = t[:pl.start] + "~" * (pl.end - pl.start) + t[pl.end:]
+            files[victim.file] = t.encode("utf-8")
+            ctx.count("fault_cases")
     d = harness.new_project(files)
     fake = None
     env = None
@@ -186,7 +269,8 @@ def run_case(ctx, case):
                 eols[fn] = kinds.pop()
         try:
             diff = parse_diff(dres.stdout.rstrip("\n") if dres.stdout.strip("\n") else "")
-            predicted = apply_diff(proj.files, eols, diff)
+            on_disk = {fn: files[fn].decode("utf-8") for fn in proj.files}
+            predicted = apply_diff(on_disk, eols, diff)
         except DiffError as ex:
             ctx.violation("other:printed_diff_not_applicable", f"{args} --dry: {ex}; stdout={dres.stdout[:300]!r}", observed=desc)
             return
@@ -197,7 +281,7 @@ def run_case(ctx, case):
             return
         after = harness.snapshot(d)
         bad = [fn for fn in proj.files if after.get(fn) != predicted[fn].encode("utf-8")]
-        n_changed = sum(1 for fn in proj.files if predicted[fn] != proj.files[fn])
+        n_changed = sum(1 for fn in proj.files if predicted[fn] != on_disk[fn])
         ctx.count("dry_ok_and_applied")
         ctx.count("engine:" + engine)
         if n_changed >= 2:
